@@ -16,7 +16,7 @@ RULE = ("BFS over histories of {callback(fresh value), errback(exception instanc
         "their inputs, and each Deferred's result.  non-trivial = distinct canonical states after a cancel, a "
         "late (second) result, or while a Deferred was waiting on another")
 BOUNDS = {"quick": "25 canceller configurations with a plain inner Deferred + 10 each with a user-subclass inner and a DeferredList([d]) inner + 9 with defer.setDebugging(True), <=3 Deferreds, <=2 pending callbacks per Deferred, depth 8",
-          "thorough": "the same 54 configurations, <=4 Deferreds, <=2 pending callbacks per Deferred, depth 10"}
+          "thorough": "the same 54 configurations (the 9 debugging ones at the quick bounds), <=4 Deferreds, <=2 pending callbacks per Deferred, depth 10"}
 ASSUMPTIONS = [
     "raising canceller: the statement is silent about the outcome; judged only (i) every cancel() that reaches "
     "an unfired Deferred built with a canceller calls that canceller exactly once (so again on a second cancel() "
@@ -586,6 +586,8 @@ def run_shard(shard, tier, seed):
 
 def _run_shard(shard, tier, seed, debug):
     k0, k1, shape = shard[:3]
+    if debug:
+        tier = "quick"      # recording stacks makes every Deferred ~20x dearer: debug configurations keep the quick bounds
     depth = TIER[tier]["depth"]
     stats = Stats()
     extra = {"config": [k0, k1, shape] + (["debug"] if debug else []), "tier": tier}
